@@ -124,7 +124,8 @@ func isPrivate(x *ast.Field) bool {
 	} else {
 		s = fmt.Sprintf("%s", x.Names[0])
 	}
-	return strings.Contains(letters, string(s[0]))
+	// anything that does not start with a letter (e.g. "_pad") is not exported either
+	return strings.Contains(letters, string(s[0])) || s[0] == '_'
 }
 
 func getFields(n map[string]ast.Node) (map[string]fields.Field, error) {
@@ -158,6 +159,9 @@ func getFields(n map[string]ast.Node) (map[string]fields.Field, error) {
 						parent.Children = append(parent.Children, f)
 					}
 				}
+				// the type of a field (an anonymous struct, the parameters of a
+				// func, ...) does not contribute fields of its own
+				return false
 			}
 			return true
 		})
